@@ -100,6 +100,12 @@ class Interp:
         for k, v in (kwargs or {}).items():
             if k in params:
                 env[k] = v
+        va = getattr(getattr(fi.node, "args", None), "vararg", None)
+        if va is not None:
+            named = [p for p in params if p != va.arg]
+            for i, p in enumerate(named):
+                env[p] = args[i] if i < len(args) else self.d.unknown()
+            env[va.arg] = Seq(args[len(named):])         # *components: the remaining positional arguments, element-wise known
         env["@fi"] = fi
         env["@depth"] = depth
         rets = []
